@@ -56,11 +56,11 @@ THEOREMS = {
     'C06_cli_aux_name_nonvacuous': 'non-vacuity: /D.d/doc, /D.d/doc.aux, /D/doc.tex',
     'C06_cli_aux_name_neg': "the hypothesis is needed: for the empty name and for a name ending in '/' the rule appends .aux again when applied twice (.aux -> .aux.aux)",
     'C06_explicit_output': '[model wiring] output side of format_from_files: no output_filename = the text is returned; name + add_output_suffix = the SAME text written to name.bbl, nothing returned; add_output_suffix without a name = TypeError raised after the run (an error of the run comes first); empty name without suffix = no name. Proved content: same text in both, name.bbl never empty',
-    'C06_output_beside_aux': "make_bibliography never returns the text and never fails on the output name: it fails exactly as the run fails and on success writes the run's text to splitext(aux)[0] + '.bbl'; for an .aux name b.aux (last component of b not only dots) that is b.bbl",
+    'C06_output_beside_aux': "[model wiring] part 1 unfolds makeBibliographyTo (the run first, then output_filename = splitext(aux)[0], add_output_suffix = True; proved content: name + '.bbl' is never empty, so the text is written, never returned, and no TypeError arises); that the CODE does so: correspondence check. Part 2 (proved): for an .aux name b.aux (last component of b not only dots) the file written is b.bbl",
     'C06_aux_equiv_output': '[model wiring] .aux run = explicit call INCLUDING the output: HYPOTHESIS the .aux file parses; then make_bibliography is format_from_files on the \\bibdata names + reader suffix, the (overridden) style, the citations, output_filename = splitext(aux)[0], add_output_suffix = True, and the text it writes is the text the same explicit call returns when given no output name (unfolding + parse_ok_style_data); that the CODE does so: correspondence check',
-    'C06_cli_run': "PybtexCommandLine.run's decision: unknown style language = usage error; BibTeX language with a Pythonic-engine option set = usage error naming the first one in dict order; BibTeX language and none set = pybtex.bibtex.make_bibliography on cliAuxName(filename) with every unset encoding option replaced by --encoding",
+    'C06_cli_run': "[model wiring] the three branches of the model's PybtexCommandLine.run (cliRun): unknown style language = usage error; BibTeX language with a Pythonic option set = usage error naming the first one in dict order; none set = make_bibliography on cliAuxName(filename) with unset encodings replaced by --encoding (proved content: no option set => firstUnsupported = none); that the CODE decides so: correspondence check with the recording engine",
     'C06_cli_run_nonvacuous': 'non-vacuity: four concrete option sets (encoding defaults incl. an empty string, two Pythonic options, language perl, language python)',
-    'C06_cli_same_run': "HYPOTHESES: last component of b not only dots, extension of b is not .aux, BibTeX language, no Pythonic option: the command line run on b and on b.aux are both make_bibliography('b.aux') with its output (same error or same text written to b.bbl)",
+    'C06_cli_same_run': "HYPOTHESES: last component of b not only dots, extension of b is not .aux, BibTeX language, no Pythonic option: the command line run on b and on b.aux are both make_bibliography('b.aux') with its output (same error or same text written to b.bbl) (the encodings computed by cliRun are not passed on in the model; content = both invocations hand the name b.aux to make_bibliography)",
     'C06_aux_equiv_in_place': "composition with C20's specification of the .aux reader: HYPOTHESES closedDepth (every \\@input file exists, nesting depth d <= fuel) and no fatal problem; then make_bibliography is format_from_files on the first \\bibdata names + suffix, the first \\bibstyle (or the override) and the citations of Spec.events = the \\citation keys in reading order with every \\@input file unfolded IN PLACE, written to splitext(aux)[0] + .bbl, the reader's reports riding along",
     'C06_aux_equiv_in_place_nonvacuous': 'non-vacuity: main.aux (alpha, \\@input ch1, omega), ch1.aux (beta, \\@input ch1a, delta), ch1a.aux (gamma) is closed at depth 3, not fatal, and denotes alpha beta gamma delta omega, style unsrt, data refs',
     'C06_model_literals': "the literals Model/Engine.lean hard-codes equal the ones regenerated from /repo on this run (Gen/EngineConsts.lean): default reader suffix .bib, style + extsep + 'bst', the .bib names, Interpreter's command_* method names = BstParser.COMMANDS lower-cased, the command line's default min_crossrefs / style language = the API's (finite facts by decide; two list identities)",
